@@ -424,6 +424,8 @@ def part_throw(ctx, nss, RegionGeomToO):
                 vt = np.asarray((r[3] - g_.too_source.eventtime).sec, dtype=np.float64) if len(r[0]) else np.zeros(0)
                 return (np.asarray(r[0]), np.asarray(r[1]), np.asarray(r[2]), vt)
             plotinert.check(ctx, "RegionGeomToO.__call__", call, {"cfg": ci, "N": n}, spellings=("list", "name"))
+            import logmode   # … and so is the logging configuration of the calling program
+            logmode.check(ctx, "RegionGeomToO.__call__", lambda: call(None), {"cfg": ci, "N": n})
         # nadir angle as the code derives it from astropy's altitude
         alt = np.radians(np.asarray(geom.alt_deg, dtype=np.float64))
         nm = np.array([h2f(t[0]) for t in run_driver([f"c13nadir {f2h(a)}" for a in alt[:20]])])
